@@ -56,7 +56,7 @@ theorem glastEnd_pos : ∀ (cs : List GCmd) (e a : Nat), 1 ≤ e → 1 ≤ glast
     trailing blanks -/
 theorem GPE.split (e : GPE) (he : e.OK) :
     ∃ Y, e.text = Y ++ e.trail ∧ 1 ≤ Y.length ∧ ∀ off, e.endPos off = off + Y.length := by
-  have hw : 0 < e.c1.first.text.length := Item.text_pos he.1.first
+  have hw : 0 < e.c1.first.text.length := Elem.text_pos he.1.first
   obtain ⟨Y, hY, hYl⟩ := gpsplit e.cs (e.c1.lead ++ e.c1.first.text ++ spellJ e.c1.items) e.c1.trail
     (e.c1.endPos 0) (0 + e.c1.text.length)
     (by simp only [GCmd.endPos, endJ_eq, List.length_append]; omega) (GCmd.endPos_trail e.c1 0)
@@ -216,9 +216,9 @@ theorem andor_stepH (hlen : L.length + 2 ≤ 1073741824) {o : Op} {s1 s2 s3 prod
   refine Tot.loop_step ?_
   refine R_shift (slOf_dflt B) (slOf_ne0 B) (slOf_shift hA B) ?_
   refine nl_first hN he.1 hl hso hcurh hL1 hb hlen ?_
-  intro t2 cons1
-  refine gpe_run (b := s2) (g93 := s3) rfl hA.base hO hOG hts' hh' hs' hb0 hlen he
-    (hl.afterTok hcurh _) rfl hLc hR hfetch' rfl ?_
+  intro t2 cons1 l1 hl1 hcur1
+  refine gpe_run (b := s2) (g93 := s3) rfl hA.base hN.base hO hOG hts' hh' hs' hb0 hlen he
+    hl1 hcur1 hLc hR hfetch' rfl ?_
   intro tr' nl' cons' l' hl' hcur'
   refine Tot.loop_step ?_
   refine R_reduce hA.d3 hA.n3 h3 hA.p rfl (goto_bstack B) hA.f ?_
@@ -255,9 +255,9 @@ theorem semi_stepH (hlen : L.length + 2 ≤ 1073741824) {acc : List Node} {e : G
   refine Tot.loop_step ?_
   refine R_shift Tab.d6 rfl Tab.a6s ?_
   refine base_first (b := 61) rfl baseG61 he.1 hl hso hcurh hL1 hb hlen ?_
-  intro cons1
-  refine gpe_run (b := 61) (g93 := 133) rfl base61 hO hOG hts' hh' hs' hb0 hlen he
-    (hl.afterTok hcurh _) rfl hLc hR hfetch' rfl ?_
+  intro cons1 l1 hl1 hcur1
+  refine gpe_run (b := 61) (g93 := 133) rfl base61 baseG61 hO hOG hts' hh' hs' hb0 hlen he
+    hl1 hcur1 hLc hR hfetch' rfl ?_
   intro tr' nl' cons' l' hl' hcur'
   have hk' := fun tr'' t2 => hk tr'' t2 nl' cons' l' hl' hcur'
   simp only [slOf, bstack] at hk'
@@ -385,9 +385,9 @@ theorem run_seqH (hlen : L.length + 2 ≤ 1073741824) {p1 : GPE} {es : List (Op 
   obtain ⟨bb, r', hbr, hb⟩ := GPE.after_first hp1 hX hx0
   have hL1 : L.drop i = p1.c1.lead ++ p1.c1.first.text ++ bb :: r' := by rw [hL, hbr]
   refine base_first (st := []) (b := 0) rfl baseG0 hp1.1 hl hso hcur hL1 hb hlen ?_
-  intro cons1
-  refine gpe_run (base := []) (b := 0) (g93 := 6) rfl base0 hO' hOG' hts' hhist' hst' hb0 hlen hp1
-    (hl.afterTok hcur _) rfl hL hR hfetch' rfl ?_
+  intro cons1 l1 hl1 hcur1
+  refine gpe_run (base := []) (b := 0) (g93 := 6) rfl base0 baseG0 hO' hOG' hts' hhist' hst' hb0 hlen hp1
+    hl1 hcur1 hL hR hfetch' rfl ?_
   intro tr' nl' cons' l' hl' hcur'
   have ea : p1.endPos i + p1.trail.length = i + p1.text.length := GPE.endPos_trail hp1 i
   refine run_restH (nlr := nlr) (nh := p1.node i) (ph := (i + p1.c1.lead.length, p1.endPos i)) hlen
